@@ -149,9 +149,111 @@ def oracle_multi(case, res):
     return ""
 
 
+# -- requests addressed by host name (oracle only) -------------------------------------------------------------------
+# A request whose destination is still being determined (its name is being resolved) is outstanding like any other;
+# one submitted after the shutdown fails at once, whatever the resolver does.  The resolver is the harness's
+# (`udp6.getaddrinfo` replaced): it answers after a scripted delay, or never.
+
+def byname_cases():
+    out = []
+    for api in ("plain", "blockwise"):
+        for when in ("during", "after"):
+            for resolver in (10, 1, None):           # seconds until the resolver answers (None: never)
+                out.append({"level": "by-name", "api": api, "submitted": when, "resolver": resolver})
+    return out
+
+
+def run_byname(case):
+    import asyncio
+    import aiocoap
+    import netsim
+    import vloop
+    from aiocoap.transports import udp6
+
+    async def main(loop):
+        ctx, net = await netsim.make_context(loop)
+        asked = []
+        gates = []
+
+        async def slow_getaddrinfo(loop_, log, host, port):
+            asked.append(host)
+            gate = loop.create_future()
+            gates.append(gate)
+            if case["resolver"] is not None:
+                loop.call_later(case["resolver"], lambda: gate.done() or gate.set_result(None))
+            await gate
+            yield ("2001:db8::7", port or 5683, 0, 0)
+
+        orig = udp6.getaddrinfo
+        udp6.getaddrinfo = slow_getaddrinfo
+        res = {}
+        try:
+            def submit():
+                msg = aiocoap.Message(code=aiocoap.GET, uri="coap://slow.example/x")
+                return ctx.request(msg, handle_blockwise=case["api"] == "blockwise").response
+
+            def state(f):
+                return ("pending" if not f.done() else "cancelled" if f.cancelled() else
+                        ",".join(c.__name__ for c in type(f.exception()).__mro__) if f.exception() else "response")
+
+            fut = None
+            if case["submitted"] == "during":
+                fut = submit()
+                await asyncio.sleep(0.25)
+                res["asked_before"] = list(asked)
+            t0 = loop.time()
+            await ctx.shutdown()
+            res["shutdown_took"] = loop.time() - t0
+            if case["submitted"] == "after":
+                fut = submit()
+            for _ in range(6):
+                await asyncio.sleep(0)
+            res["at_once"] = state(fut)
+            res["asked_after_shutdown"] = asked[len(res.get("asked_before", [])):]
+            mark = len(net.sent)
+            await asyncio.sleep(60)
+            res["later"] = state(fut)
+            res["sent_after"] = len(net.sent) - mark
+        finally:
+            udp6.getaddrinfo = orig
+        return res
+
+    res, loop = vloop.run(main)
+    res["loop_errors"] = [repr(c.get("exception") or c.get("message")) for c in loop.exceptions]
+    return res
+
+
+def oracle_byname(case, res):
+    what = f"request to coap://slow.example/x ({case['api']}) submitted {case['submitted']} shutdown"
+    if case["submitted"] == "during" and res.get("asked_before") != ["slow.example"]:
+        return f"by-name harness: the resolver was asked {res.get('asked_before')} before shutdown"
+    if res["shutdown_took"] > 3.0:
+        return f"shutdown-slow: shutdown took {res['shutdown_took']} s"
+    for moment in ("at_once", "later"):
+        st = res[moment]
+        if st == "pending":
+            return (f"hangs: {what} is still pending {'when shutdown has returned' if moment == 'at_once' else '60 s later'}"
+                    f" (resolver answers after {case['resolver']} s)")
+        if st in ("cancelled", "response") or "Error" not in st.split(","):
+            return f"foreign-exception: {what} ended with {st}"
+    if res["asked_after_shutdown"]:
+        return f"late-submit: {what} still asked the resolver for {res['asked_after_shutdown']}"
+    if res["sent_after"]:
+        return f"sent-after-shutdown: {res['sent_after']} datagrams after shutdown"
+    if res["loop_errors"]:
+        return f"loop-exception: {res['loop_errors'][0]}"
+    return ""
+
+
 def run(env, rep):
     env.import_repo()
     P.check_scripts(env, rep, "C18", scripts(env), P.oracle_c18, nontrivial)
+    for case in byname_cases():
+        rep.case(case)
+        rep.count("by-name:" + case["submitted"])
+        verdict = oracle_byname(case, run_byname(case))
+        if verdict:
+            rep.oracle_fail(case, verdict, key="by-name:" + verdict.split(":")[0].split(" ")[0])
     for case in multi_cases():
         rep.case(case, nontrivial=any(case["busy"]) or case["client"] is not None)
         rep.count("multi-endpoint:%d" % case["endpoints"])
@@ -161,6 +263,9 @@ def run(env, rep):
 
 
 def replay(env, case):
+    if case.get("level") == "by-name":
+        env.import_repo()
+        return oracle_byname(case, run_byname(case))
     if case.get("level") == "multi-endpoint":
         env.import_repo()
         return oracle_multi(case, run_multi(case))
